@@ -192,54 +192,60 @@ impl SetOperations {
         let num_ways = iterators.len();
         let mut result = Vec::new();
         
-        // Convert iterators to way iterators for the tournament tree
-        let mut tree = EnhancedLoserTree::new(crate::algorithms::LoserTreeConfig::default());
+        // Convert iterators to way iterators for the tournament tree. Every element is
+        // tagged with its way, so that duplicates inside one sequence are not mistaken for
+        // occurrences in other sequences.
+        let mut tree = EnhancedLoserTree::with_comparator(
+            crate::algorithms::LoserTreeConfig::default(),
+            |a: &(T, usize), b: &(T, usize)| a.0.cmp(&b.0),
+        );
         
-        for iterator in iterators {
-            tree.add_way(iterator)?;
+        for (way, iterator) in iterators.into_iter().enumerate() {
+            tree.add_way(iterator.map(move |value| (value, way)))?;
         }
         
         tree.initialize()?;
 
-        // Process elements using the tournament tree
+        // Process elements using the tournament tree: per key, count the occurrences in
+        // each way; the key is emitted min-count times when it occurs in every way (the
+        // same multiset semantics as the bit mask variant).
         let mut current_key: Option<T> = None;
-        let mut count = 0;
+        let mut way_counts = vec![0usize; num_ways];
+
+        let flush = |key: &T, way_counts: &mut Vec<usize>, result: &mut Vec<T>| {
+            let copies = way_counts.iter().copied().min().unwrap_or(0);
+            for _ in 0..copies {
+                result.push(key.clone());
+            }
+            way_counts.iter_mut().for_each(|c| *c = 0);
+        };
 
         while !tree.is_empty() {
-            if let Some(value) = tree.pop()? {
-                match &current_key {
+            if let Some((value, way)) = tree.pop()? {
+                let ordering = current_key.as_ref().map(|key| value.cmp(key));
+                match ordering {
                     None => {
-                        current_key = Some(value.clone());
-                        count = 1;
+                        current_key = Some(value);
                     }
-                    Some(key) => {
-                        match value.cmp(key) {
-                            Ordering::Equal => {
-                                count += 1;
-                            }
-                            Ordering::Greater => {
-                                // Check if previous key appeared in all ways
-                                if count == num_ways {
-                                    result.push(key.clone());
-                                }
-                                current_key = Some(value.clone());
-                                count = 1;
-                            }
-                            Ordering::Less => {
-                                return Err(ZiporaError::invalid_data("Input sequences not properly sorted"));
-                            }
+                    Some(Ordering::Equal) => {}
+                    Some(Ordering::Greater) => {
+                        if let Some(key) = current_key.as_ref() {
+                            flush(key, &mut way_counts, &mut result);
                         }
+                        current_key = Some(value);
+                    }
+                    Some(Ordering::Less) => {
+                        return Err(ZiporaError::invalid_data("Input sequences not properly sorted"));
                     }
                 }
+                way_counts[way] += 1;
                 self.stats.elements_examined += 1;
             }
         }
 
         // Check the last key
-        if let Some(key) = current_key {
-            if count == num_ways {
-                result.push(key);
-            }
+        if let Some(key) = current_key.as_ref() {
+            flush(key, &mut way_counts, &mut result);
         }
 
         Ok(result)
